@@ -21,5 +21,35 @@ fi
 cp "$ROOT/properties.jsonl" "$SCR/root/"; cp "$ROOT/known_findings.json" "$SCR/root/" 2>/dev/null || true
 rm -rf "$SCR/root/known_findings.d"; cp -r "$ROOT/known_findings.d" "$SCR/root/" 2>/dev/null || true
 pkg=$(echo "$PROP" | tr 'A-Z' 'a-z')
-( cd "$H" && CARGO_TARGET_DIR="$SCR/target" CARGO_NET_OFFLINE=true cargo build --release -p "$pkg" 2>&1 | tail -3 ) || { echo "mutant_run: build of $pkg against $WT failed (inconclusive)" >&2; exit 2; }
-VERIF_ROOT="$SCR/root" "$SCR/target/release/$pkg" --tier "$TIER" --seed "${VERIF_SEED:-0}" "$@"
+# process-level tier (props/e2e + spbin = the worktree's server binary) for the properties it serves
+e2e_prop=no; case "$PROP" in C04|C08|C09|C11|C15) e2e_prop=yes ;; esac
+# --replay <file>: a replay of an e2e sub-check (or of the probe of an e2e finding) goes to the e2e binary only
+only=""; prev=""
+for a in "$@"; do
+  if [ "$prev" = "--replay" ] && [ -f "$a" ]; then
+    chk=$(python3 -c "import json,sys; print(json.load(open(sys.argv[1])).get('check',''))" "$a" 2>/dev/null || true)
+    case "$chk" in
+      e2e_*) only=e2e ;;
+      probe:*) if grep -qs "\"${chk#probe:}\"" "$ROOT"/harness/props/e2e/src/*.rs; then only=e2e; else only=main; fi ;;
+      *) only=main ;;
+    esac
+  fi
+  prev="$a"
+done
+build_pkgs() { ( cd "$H" && CARGO_TARGET_DIR="$SCR/target" CARGO_NET_OFFLINE=true cargo build --release "$@" 2>&1 | tail -3 ) || { echo "mutant_run: build ($*) against $WT failed (inconclusive)" >&2; exit 2; }; }
+if [ "$only" != e2e ]; then
+  build_pkgs -p "$pkg"
+  set +e
+  VERIF_ROOT="$SCR/root" "$SCR/target/release/$pkg" --tier "$TIER" --seed "${VERIF_SEED:-0}" "$@"; rc=$?
+  set -e
+  [ $rc -eq 0 ] || exit $rc
+fi
+if [ "$e2e_prop" = yes ] && [ "$only" != main ]; then
+  build_pkgs -p spbin -p e2e
+  [ -x "$SCR/target/release/sp_server" ] || { echo "mutant_run: sp_server was not built (inconclusive)" >&2; exit 2; }
+  set +e
+  VERIF_ROOT="$SCR/root" VERIF_EVIDENCE_DIR="$SCR/root/e2e-evidence" "$SCR/target/release/e2e" --property "$PROP" --tier "$TIER" --seed "${VERIF_SEED:-0}" "$@"; rc=$?
+  set -e
+  exit $rc
+fi
+exit 0
